@@ -735,4 +735,303 @@ theorem coerceTy_list (s : Schema) (sobj : List FieldDef → IV → Path → Exc
   simp [Ty.nn]
   try rfl
 
+/-! ## the generated unmarshal function agrees with the Spec, up to input objects -/
+
+theorem ivOf_isNull (v : Raw) : isNullIV (ivOf v) = v.isNil := by
+  cases v <;> simp [ivOf, isNullIV, Raw.isNil]
+  case num t => cases jsonIntToken t <;> simp [isNullIV]
+
+theorem ivOf_str {v : Raw} {x : String} (h : ivOf v = .str x) : v = .str x := by
+  cases v <;> simp [ivOf] at h
+  case num t => cases hj : jsonIntToken t <;> simp [hj] at h
+  case str s => simp [h]
+
+theorem ivOf_list {v : Raw} {xs : List IV} (hc : canon v = true) (h : ivOf v = .list xs) :
+    ∃ ys, v = .list ys ∧ xs = ys.map ivOf := by
+  cases v <;> simp [ivOf] at h
+  case num t => cases hj : jsonIntToken t <;> simp [hj] at h
+  case list ys => exact ⟨ys, rfl, by rw [← h, ivOfList_eq]⟩
+  case typed k ys => simp [canon] at hc
+
+theorem ivOf_not_list_single {v : Raw} (hc : canon v = true) (hv : v.isNil = false)
+    (h : ∀ xs, ivOf v ≠ .list xs) : Single v = true := by
+  cases v <;> simp [Single, Raw.isNil, canon] at hv hc ⊢
+  case list ys => exact absurd rfl (h _)
+
+/-- pointwise transfer along `mapIdxE` -/
+theorem mapIdxE_rel {α β γ δ ε ε' : Type} (φ : α → γ) (ψ : δ → β) (f : Nat → α → Except ε β)
+    (g : Nat → γ → Except ε' δ) (xs : List α)
+    (h : ∀ i x c, x ∈ xs → g i (φ x) = .ok c → f i x = .ok (ψ c)) :
+    ∀ (i : Nat) (cs : List δ), mapIdxE g i (xs.map φ) = .ok cs → mapIdxE f i xs = .ok (cs.map ψ) := by
+  induction xs with
+  | nil => intro i cs hg; simp [mapIdxE] at hg ⊢; subst hg; rfl
+  | cons a r ih =>
+    intro i cs hg
+    simp only [List.map, mapIdxE] at hg ⊢
+    split at hg
+    · cases hg
+    · rename_i c hc
+      split at hg
+      · cases hg
+      · rename_i cs' hcs
+        cases hg
+        rw [h i a c (by simp) hc]
+        rw [ih (fun i x c hx => h i x c (by simp [hx])) (i + 1) cs' hcs]
+        rfl
+
+theorem coerceList_list (xs : List Raw) : coerceList (.list xs) = xs := by
+  simp [coerceList, arm, armBody, Gen.ScalarArms.fn_CoerceList, Raw.goType]
+
+theorem embedSh_null (eobj : String → Bool → CV → GoV) (sh : Sh) (t : Ty) :
+    embedSh eobj sh t .null = (match sh with | .slice _ => .nilSlice | .mapIn _ => .nilMap | _ => .nil) := by
+  cases sh <;> (unfold embedSh; rfl)
+
+theorem embedSh_ptr (eobj : String → Bool → CV → GoV) (i : Sh) (t : Ty) (cv : CV) (h : cv ≠ .null) :
+    embedSh eobj (.ptr i) t cv = .ptr (embedSh eobj i t cv) := by
+  cases cv <;> first | (exact absurd rfl h) | (conv => lhs; unfold embedSh)
+
+theorem embedSh_slice (eobj : String → Bool → CV → GoV) (el : Sh) (et : Ty) (nn : Bool) (cs : List CV) :
+    embedSh eobj (.slice el) (.list et nn) (.list cs) = .slice (cs.map (embedSh eobj el et)) := by
+  conv => lhs; unfold embedSh
+
+theorem embedSh_scalar (eobj : String → Bool → CV → GoV) (k : ScalarK) (hk : k ≠ .any) (t : Ty) (cv : CV)
+    (h : cv ≠ .null) : embedSh eobj (.scalar k) t cv = scalarGo cv := by
+  cases k <;> first | (exact absurd rfl hk) | (cases cv <;> first | (exact absurd rfl h) | (unfold embedSh; rfl))
+
+theorem embedSh_enum (eobj : String → Bool → CV → GoV) (n : String) (t : Ty) (x : String) :
+    embedSh eobj (.enum n) t (.str x) = .str x := by
+  unfold embedSh; rfl
+
+theorem embedSh_struct (eobj : String → Bool → CV → GoV) (n : String) (t : Ty) (cv : CV) (h : cv ≠ .null) :
+    embedSh eobj (.struct n) t cv = eobj n false cv := by
+  cases cv <;> first | (exact absurd rfl h) | (unfold embedSh; rfl)
+
+theorem embedSh_mapIn (eobj : String → Bool → CV → GoV) (n : String) (t : Ty) (cv : CV) (h : cv ≠ .null) :
+    embedSh eobj (.mapIn n) t cv = eobj n true cv := by
+  cases cv <;> first | (exact absurd rfl h) | (unfold embedSh; rfl)
+
+theorem coerceScalar_nonnull {tn : String} {k : ScalarK} {iv : IV} {cv : CV}
+    (h : coerceScalar {} tn k iv = some cv) : cv ≠ .null := by
+  intro hc; subst hc
+  cases k <;> cases iv <;> simp [coerceScalar] at h <;> (try split at h) <;> simp_all
+
+theorem coerceTy_nil {s : Schema} {sobj : List FieldDef → IV → Path → Except SErr CV} {t : Ty} {v : Raw}
+    {path : Path} {cv : CV} (hv : v.isNil = true) (h : coerceTy {} s sobj t (ivOf v) path = .ok cv) :
+    t.nn = false ∧ cv = .null := by
+  have hi : isNullIV (ivOf v) = true := by rw [ivOf_isNull]; exact hv
+  cases t with
+  | named n nn =>
+    rw [coerceTy_named] at h
+    simp only [hi, if_true] at h
+    cases nn <;> simp [Ty.nn] at h ⊢
+    exact h.symm
+  | list et nn =>
+    rw [coerceTy_list] at h
+    simp only [hi, if_true] at h
+    cases nn <;> simp [Ty.nn] at h ⊢
+    exact h.symm
+
+theorem coerceTy_nonnull {s : Schema} {sobj : List FieldDef → IV → Path → Except SErr CV}
+    (hsobj : ∀ fields iv path cv, sobj fields iv path = .ok cv → cv ≠ .null)
+    {t : Ty} {iv : IV} {path : Path} {cv : CV} (hv : isNullIV iv = false)
+    (h : coerceTy {} s sobj t iv path = .ok cv) : cv ≠ .null := by
+  cases t with
+  | named n nn =>
+    rw [coerceTy_named] at h
+    simp only [hv] at h
+    simp at h
+    split at h
+    · cases h
+    · split at h
+      · cases h; rename_i hc; exact coerceScalar_nonnull hc
+      · cases h
+    · split at h
+      · split at h
+        · cases h; simp
+        · cases h
+      · cases h
+    · exact hsobj _ _ _ _ h
+  | list et nn =>
+    rw [coerceTy_list] at h
+    simp only [hv] at h
+    simp at h
+    split at h
+    · split at h
+      · cases h; simp
+      · cases h
+    · split at h
+      · cases h; simp
+      · cases h
+
+theorem unmSh_eq_spec (s : Schema)
+    (uobj : String → Bool → Raw → Path → Res GoV)
+    (sobj : List FieldDef → IV → Path → Except SErr CV)
+    (eobj : String → Bool → CV → GoV)
+    (hsobj : ∀ fields iv path cv, sobj fields iv path = .ok cv → cv ≠ .null)
+    (hobj : ∀ n isMap fields v path cv, s.get n = some (.input isMap fields) → canon v = true →
+        v.isNil = false → sobj fields (ivOf v) path = .ok cv → uobj n isMap v path = .ok (eobj n isMap cv)) :
+    ∀ (sh : Sh) (t : Ty) (v : Raw) (path : Path) (cv : CV),
+      fits s sh t = true → canon v = true → (v.isNil = true → t.nn = true ∨ sh.nilable = true) →
+      coerceTy {} s sobj t (ivOf v) path = .ok cv →
+      unmSh s uobj sh t v path = .ok (embedSh eobj sh t cv) := by
+  intro sh
+  induction sh with
+  | bad w => intro t v path cv hf; cases t <;> simp [fits] at hf
+  | ptr i ih =>
+    intro t v path cv hf hc hn h
+    rw [unmSh_ptr]
+    cases hv : v.isNil
+    · have hcv := coerceTy_nonnull hsobj (by rw [ivOf_isNull]; exact hv) h
+      have := ih t v path cv (by simpa [fits] using hf) hc (by simp [hv]) h
+      simp [this, embedSh_ptr _ _ _ _ hcv]
+    · obtain ⟨ht, rfl⟩ := coerceTy_nil hv h
+      simp [ht, embedSh_null]
+  | slice el ih =>
+    intro t v path cv hf hc hn h
+    cases t with
+    | named n nn => simp [fits] at hf
+    | list et nn =>
+      simp only [fits, Bool.and_eq_true] at hf
+      rw [unmSh_slice]
+      cases hv : v.isNil
+      · rw [coerceTy_list] at h
+        have hi : isNullIV (ivOf v) = false := by rw [ivOf_isNull]; exact hv
+        simp only [hi] at h
+        simp at h ⊢
+        by_cases hl : ∃ xs, ivOf v = .list xs
+        · obtain ⟨xs, hxs⟩ := hl
+          obtain ⟨ys, rfl, rfl⟩ := ivOf_list hc hxs
+          rw [hxs] at h
+          simp only at h
+          split at h
+          · rename_i cs hcs
+            cases h
+            have hcl : canonList ys = true := by simpa [canon] using hc
+            have := mapIdxE_rel ivOf (embedSh eobj el et)
+              (fun i x => unmSh s uobj el et x (path ++ [toString i]))
+              (fun i y => coerceTy {} s sobj et y (path ++ [toString i])) ys
+              (fun i x c hx hg => ih et x _ c hf.1 (canonList_mem hcl hx)
+                (fun _ => by
+                  have := hf.2
+                  simp only [Bool.or_eq_true] at this
+                  exact this) hg) 0 cs hcs
+            simp only [unmSlice, coerceList_list, Bool.false_and, Bool.false_eq_true, if_false]
+            rw [this, embedSh_slice]
+          · cases h
+        · have hsingle : Single v = true := ivOf_not_list_single hc hv (fun xs hx => hl ⟨xs, hx⟩)
+          have h0 : toString 0 = "0" := by decide
+          split at h
+          · rename_i xs hx; exact absurd ⟨xs, hx⟩ hl
+          · split at h
+            · rename_i c hcc
+              cases h
+              have := ih et v (path ++ ["0"]) c hf.1 hc (by simp [hv]) hcc
+              simp only [unmSlice, coerceList_single v hsingle, mapIdxE, h0, this, embedSh_slice, Bool.false_and,
+                Bool.false_eq_true, if_false, List.map]
+            · cases h
+      · obtain ⟨ht, rfl⟩ := coerceTy_nil hv h
+        simp [ht, embedSh_null]
+  | scalar k =>
+    intro t v path cv hf hc hn h
+    cases t with
+    | list et nn => simp [fits] at hf
+    | named n nn =>
+      simp only [fits, Bool.and_eq_true, bne_iff_ne, ne_eq] at hf
+      obtain ⟨hk, hg⟩ := hf
+      rw [unmSh_scalar _ _ _ hk]
+      cases hv : v.isNil
+      · rw [coerceTy_named] at h
+        have hi : isNullIV (ivOf v) = false := by rw [ivOf_isNull]; exact hv
+        simp only [hi] at h
+        split at hg
+        · rename_i k' hsg
+          simp at hg; subst hg
+          simp [hsg] at h
+          split at h
+          · rename_i c hcs
+            cases h
+            simp [scalar_eq_spec n k hk v hc hv path _ hcs, embedSh_scalar _ _ hk _ _ (coerceScalar_nonnull hcs)]
+          · cases h
+        · cases hg
+      · obtain ⟨ht, rfl⟩ := coerceTy_nil hv h
+        have := hn hv
+        simp [Ty.nn] at ht
+        subst ht
+        cases k <;> simp [Sh.nilable, Ty.nn] at this
+        exact absurd rfl hk
+  | enum n' =>
+    intro t v path cv hf hc hn h
+    cases t with
+    | list et nn => simp [fits] at hf
+    | named n nn =>
+      simp only [fits, Bool.and_eq_true, beq_iff_eq] at hf
+      obtain ⟨rfl, hg⟩ := hf
+      rw [unmSh_enum]
+      cases hv : v.isNil
+      · rw [coerceTy_named] at h
+        have hi : isNullIV (ivOf v) = false := by rw [ivOf_isNull]; exact hv
+        simp only [hi] at h
+        split at hg
+        · rename_i vals hsg
+          simp [hsg] at h
+          split at h
+          · rename_i x hx
+            have hvx := ivOf_str hx
+            subst hvx
+            split at h
+            · rename_i hmem
+              cases h
+              simp [unmEnum, hsg, hmem, embedSh_enum]
+            · cases h
+          · cases h
+        · cases hg
+      · obtain ⟨ht, rfl⟩ := coerceTy_nil hv h
+        have := hn hv
+        simp [Ty.nn] at ht
+        subst ht
+        simp [Sh.nilable, Ty.nn] at this
+  | struct n' =>
+    intro t v path cv hf hc hn h
+    cases t with
+    | list et nn => simp [fits] at hf
+    | named n nn =>
+      simp only [fits, Bool.and_eq_true, beq_iff_eq] at hf
+      obtain ⟨rfl, hg⟩ := hf
+      rw [unmSh_struct]
+      cases hv : v.isNil
+      · have hcv := coerceTy_nonnull hsobj (by rw [ivOf_isNull]; exact hv) h
+        rw [coerceTy_named] at h
+        have hi : isNullIV (ivOf v) = false := by rw [ivOf_isNull]; exact hv
+        simp only [hi] at h
+        split at hg
+        · rename_i fields hsg
+          simp [hsg] at h
+          simp [hobj _ _ _ _ _ _ hsg hc hv h, embedSh_struct _ _ _ _ hcv]
+        · cases hg
+      · obtain ⟨ht, rfl⟩ := coerceTy_nil hv h
+        have := hn hv
+        simp [Ty.nn] at ht
+        subst ht
+        simp [Sh.nilable, Ty.nn] at this
+  | mapIn n' =>
+    intro t v path cv hf hc hn h
+    cases t with
+    | list et nn => simp [fits] at hf
+    | named n nn =>
+      simp only [fits, Bool.and_eq_true, beq_iff_eq] at hf
+      obtain ⟨rfl, hg⟩ := hf
+      rw [unmSh_mapIn]
+      cases hv : v.isNil
+      · have hcv := coerceTy_nonnull hsobj (by rw [ivOf_isNull]; exact hv) h
+        rw [coerceTy_named] at h
+        have hi : isNullIV (ivOf v) = false := by rw [ivOf_isNull]; exact hv
+        simp only [hi] at h
+        split at hg
+        · rename_i fields hsg
+          simp [hsg] at h
+          simp [hobj _ _ _ _ _ _ hsg hc hv h, embedSh_mapIn _ _ _ _ hcv]
+        · cases hg
+      · obtain ⟨ht, rfl⟩ := coerceTy_nil hv h
+        simp [ht, embedSh_null]
+
 end GqlgenVerif.Coerce
